@@ -9,8 +9,12 @@ use garnish_lang_runtime::{SimpleRuntimeState, execute_current_instruction};
 use garnish_lang_simple_data::SimpleNumber;
 use garnish_lang_traits::{GarnishData, GarnishDataType, GarnishNumber, Instruction};
 
+/// cell capacity of the one-step harnesses
+pub const SC: usize = 10;
+pub type SD = BoundedData<SC>;
+
 pub struct Step {
-    pub d: BoundedData,
+    pub d: SD,
     pub sentinel: usize,
     pub cells_before: usize,
     pub regs_before: usize,
@@ -23,7 +27,7 @@ pub fn narrow(v: i32) -> bool {
     (v >= -4 && v <= 4) || v == i32::MIN || v == i32::MAX || v == 31 || v == 32
 }
 
-pub fn assume_narrow_numbers<N: Nondet>(n: &mut N, d: &BoundedData) {
+pub fn assume_narrow_numbers<N: Nondet>(n: &mut N, d: &SD) {
     let mut i = 0;
     while i < d.n_cells {
         if d.cells[i].tag == GarnishDataType::Number {
@@ -40,13 +44,18 @@ pub fn assume_narrow_numbers<N: Nondet>(n: &mut N, d: &BoundedData) {
 /// operand addresses pushed in order (left first), the instruction under test at cursor 0 followed
 /// by an EndExpression so that the step reports Running.
 pub fn setup<N: Nondet>(n: &mut N, k: usize, floats: bool, max_len: usize, operands: usize, instr: Instruction, idata: Option<usize>, host_calls: usize) -> (Step, [usize; 3]) {
-    let mut d = any_state(n, k, floats, max_len);
+    let mut d: SD = any_state(n, k, floats, max_len);
     script_host(n, &mut d, host_calls);
+    // operand addresses are concrete (the last cells; every cell is arbitrary anyway), except that a
+    // binary instruction may receive the same value twice
     let mut ops = [0usize; 3];
     let mut i = 0;
     while i < operands {
-        ops[i] = n.usize_below(k);
+        ops[i] = k - operands + i;
         i += 1;
+    }
+    if operands == 2 && n.bool() {
+        ops[0] = ops[1];
     }
     let sentinel = d.add_unit().unwrap();
     d.push_register(sentinel).unwrap();
@@ -139,7 +148,7 @@ pub fn assert_deferred(s: &Step, instr: Instruction, left: (GarnishDataType, usi
 /// C08 + C09(runtime) + C06: binary number instructions, both operands with symbolic tags (20 x 20)
 pub fn binary_number_op<N: Nondet, const I: usize>(n: &mut N) {
     let instr = ALL_INSTRUCTIONS[I];
-    let (mut s, ops) = setup(n, 3, false, 2, 2, instr, None, 1);
+    let (mut s, ops) = setup(n, 2, false, 2, 2, instr, None, 1);
     assume_narrow_numbers(n, &s.d);
     let (l, r) = (ops[0], ops[1]);
     let (lt, rt) = (s.d.cells[l].tag, s.d.cells[r].tag);
@@ -166,7 +175,7 @@ pub fn binary_number_op<N: Nondet, const I: usize>(n: &mut N) {
 /// unary number instructions (Opposite, AbsoluteValue, BitwiseNot)
 pub fn unary_number_op<N: Nondet, const I: usize>(n: &mut N) {
     let instr = ALL_INSTRUCTIONS[I];
-    let (mut s, ops) = setup(n, 3, false, 2, 1, instr, None, 1);
+    let (mut s, ops) = setup(n, 2, false, 2, 1, instr, None, 1);
     let a = ops[0];
     let at = s.d.cells[a].tag;
     let res = execute_current_instruction(&mut s.d);
